@@ -85,8 +85,13 @@ Docs(d) == IF d = 0 THEN Leaves ELSE Leaves \cup {Obj(m) : m \in Maps(Docs(d - 1
 VARIABLES target, patch
 vars == <<target, patch>>
 
+\* patches that repeat (sub)documents of the target verbatim, null members included: what a client
+\* sends that read the document, edited something else and returns whole sections
+Echo(t) == IF IsObj(t) THEN {Obj([k \in S |-> t.m[k]]) : S \in SUBSET DOMAIN t.m} ELSE {t}
+
 Init == \/ target \in Docs(1) /\ patch \in Docs(2)
         \/ target \in Docs(2) /\ patch \in Docs(1)
+        \/ target \in Docs(2) /\ patch \in Echo(target)
 Next == UNCHANGED vars
 Spec == Init /\ [][Next]_vars
 
